@@ -44,6 +44,7 @@ F_None == {}
 F_Sys == {"add", "iadd"}
 F_Hist == {"add", "iadd", "add-list", "add-gen", "iadd-list", "iadd-gen", "iadd-iter"}
 F_HistQ == {"add", "iadd", "add-list", "iadd-gen"}
+F_HistT == {"add", "iadd", "add-gen", "iadd-list", "iadd-iter"}
 CatN3 == <<CatN[1], CatN[2], CatN[4]>>
 Cat4 == <<Cat12[1], Cat12[2], Cat12[3], Cat12[5]>>
 CatChain5 == SubSeq(CatChain, 1, 5)
